@@ -28,6 +28,13 @@ type c06Case struct {
 	// EOFData (with Close == 1): the receiver starts reading only when the sender has written and closed, and
 	// the transport reports io.EOF together with the last bytes it hands over
 	EOFData bool `json:"eofdata,omitempty"`
+	// Pre > 0: before Writes, Pre writes of PreSize bytes each (a chatty connection: more than a thousand
+	// records while little has been sent)
+	Pre     int `json:"pre,omitempty"`
+	PreSize int `json:"presize,omitempty"`
+	// Reply > 0 (with Close == 2): after CloseWrite the sender keeps reading; the receiver, having seen
+	// the end of the stream, answers with Reply bytes and closes: the sender must read exactly those
+	Reply int `json:"reply,omitempty"`
 }
 
 // refKeysOfPair derives the record keys of a completed conversation from the tapped hellos and
@@ -78,10 +85,20 @@ func c06Run(c c06Case) (sig, msg string) {
 			return "honest-failed", fmt.Sprintf("priming handshake failed: %v / %v", r0.CErr, r0.SErr)
 		}
 	}
+	if c.Pre > 0 {
+		w := make([]int, c.Pre, c.Pre+len(c.Writes))
+		for i := range w {
+			w[i] = c.PreSize
+		}
+		c.Writes = append(w, c.Writes...)
+	}
 	var all []byte
 	for i, n := range c.Writes {
 		all = append(all, c01Payload(n, byte(i))...)
 	}
+	reply := c01Payload(c.Reply, 0x5a)
+	var replyGot []byte
+	var replyErr error
 	var got []byte
 	var recvErr, sendErr error
 	sawEOF := false
@@ -106,6 +123,24 @@ func c06Run(c c06Case) (sig, msg string) {
 			if err := cn.CloseWrite(); err != nil {
 				sendErr = fmt.Errorf("CloseWrite: %v", err)
 			}
+			if c.Reply > 0 && sendErr == nil {
+				buf := make([]byte, 777)
+				for {
+					n, err := cn.Read(buf)
+					replyGot = append(replyGot, buf[:n]...)
+					if err == io.EOF {
+						break
+					}
+					if err != nil {
+						replyErr = fmt.Errorf("after CloseWrite, reading the peer's answer failed after %d of %d bytes: %v", len(replyGot), len(reply), err)
+						break
+					}
+					if n == 0 || len(replyGot) > len(reply) {
+						replyErr = fmt.Errorf("after CloseWrite, reading the peer's answer: read returned %d bytes, %d of %d so far", n, len(replyGot), len(reply))
+						break
+					}
+				}
+			}
 		}
 		return sendErr
 	}
@@ -128,6 +163,20 @@ func c06Run(c c06Case) (sig, msg string) {
 			got = append(got, buf[:n]...)
 			if err == io.EOF {
 				sawEOF = true
+				if c.Reply > 0 && c.Close == 2 {
+					for off := 0; off < len(reply); {
+						k := 1 + (off*7+13)%5000
+						if off+k > len(reply) {
+							k = len(reply) - off
+						}
+						if _, werr := cn.Write(reply[off : off+k]); werr != nil {
+							recvErr = fmt.Errorf("answering after the peer's CloseWrite: %v", werr)
+							return recvErr
+						}
+						off += k
+					}
+					cn.Close()
+				}
 				return nil
 			}
 			if err != nil {
@@ -189,6 +238,14 @@ func c06Run(c c06Case) (sig, msg string) {
 	if c.Close != 0 && !sawEOF {
 		return "no-eof", "sender closed after its last write but the receiver never saw io.EOF"
 	}
+	if c.Reply > 0 && c.Close == 2 {
+		if replyErr != nil {
+			return "reply-after-closewrite", replyErr.Error()
+		}
+		if !bytes.Equal(replyGot, reply) {
+			return "reply-after-closewrite", fmt.Sprintf("after CloseWrite the sender read %d bytes of the peer's answer, %d were written", len(replyGot), len(reply))
+		}
+	}
 	// record size limits, from the wire
 	keys, err := refKeysOfPair(r, cc)
 	if err != nil {
@@ -221,7 +278,7 @@ func c06Run(c c06Case) (sig, msg string) {
 }
 
 func TestVF_C06(t *testing.T) {
-	rec := vfRec("C06", "C06-stream", "suite x full / resumed handshake x dynamic sizing on/off x direction x write-size lists (0,1,2,small,16383..16385,40000,70000; ramps of many small writes followed by a long one; runs of 1..60 empty writes between data) x receiver transport segmentation (whole, 1 byte, cycling 1..50, 1208) x read buffer sizes (1,7,100,4096,20000 cycled) x close mode (none, Close, CloseWrite; with Close optionally a late reader and a transport that reports io.EOF together with its last bytes); oracle: writes report full length, concat(reads)=concat(writes), EOF after everything when closed, record sizes from the wire via the reference opener; non-trivial = more than one record, or segmentation != whole, or a read buffer smaller than a record")
+	rec := vfRec("C06", "C06-stream", "suite x full / resumed handshake x dynamic sizing on/off x direction x write-size lists (0,1,2,small,16383..16385,40000,70000; ramps of many small writes followed by a long one; 990..1100 writes of 1..40 bytes followed by long ones; runs of 1..60 empty writes between data) x receiver transport segmentation (whole, 1 byte, cycling 1..50, 1208) x read buffer sizes (1,7,100,4096,20000 cycled) x close mode (none, Close, CloseWrite; with Close optionally a late reader and a transport that reports io.EOF together with its last bytes; with CloseWrite optionally an answer of 1..70000 bytes which the half-closed side must read to its end); oracle: writes report full length, concat(reads)=concat(writes), EOF after everything when closed, record sizes from the wire via the reference opener; non-trivial = more than one record, or segmentation != whole, or a read buffer smaller than a record")
 	sizeGen := rapid.OneOf(rapid.SampledFrom([]int{0, 1, 2, 16383, 16384, 16385, 40000, 70000}), rapid.IntRange(1, 300), rapid.IntRange(1, 20000))
 	vfRapid(t, rec, "cases", vfN(2000, 30000), func(t *rapid.T) {
 		c := c06Case{Suite: rapid.SampledFrom(vfSuites).Draw(t, "suite"), NoDynamic: rapid.Bool().Draw(t, "nodyn"), Dir: rapid.IntRange(0, 1).Draw(t, "dir"),
@@ -253,6 +310,14 @@ func TestVF_C06(t *testing.T) {
 				c.Writes = append(c.Writes, 0)
 			}
 			c.Writes = append(c.Writes, rapid.IntRange(1, 5000).Draw(t, "after"))
+		case 3:
+			// a chatty connection: more than a thousand small records while fewer than 128 KiB were sent, then long writes
+			c.Pre, c.PreSize = rapid.SampledFrom([]int{990, 1000, 1001, 1002, 1010, 1100}).Draw(t, "pre"), rapid.IntRange(1, 40).Draw(t, "presize")
+			c.Writes = []int{rapid.SampledFrom([]int{16384, 16385, 20000, 50000}).Draw(t, "big"), rapid.IntRange(1, 20000).Draw(t, "next")}
+			c.Seg, c.Bufs = 0, []int{20000}
+		}
+		if c.Close == 2 && rapid.Bool().Draw(t, "reply") {
+			c.Reply = rapid.SampledFrom([]int{1, 100, 16385, 70000}).Draw(t, "replysize")
 		}
 		total := 0
 		for _, n := range c.Writes {
